@@ -119,9 +119,14 @@ def initial_state_frame(ctx, pq):
             except Exception as e:  # noqa
                 ctx.notes.setdefault("initial_state_skipped", []).append(f"{name}: {type(e).__name__}")
                 continue
-            for upto in range(1, len(body) + 1):
+            # prefixes of the body, and every instruction as the FIRST one acting on the caller's state
+            variants = [body[:upto] for upto in range(1, len(body) + 1)] + [[x] for x in body[1:]] + [[x] + body[:j] for j, x in enumerate(body) if j >= 2]
+            if name in ("PureFock", "Fock"):
+                variants += [[pq.SNAP(theta=np.array([0.1, 0.2, 0.3, 0.4, 0.5])).on_modes(0)], [pq.CubicPhase(gamma=0.1).on_modes(1)],
+                             [pq.Displacement(r=0.2).on_modes(1)], [pq.Attenuator(theta=0.3).on_modes(0)] if name == "Fock" else [pq.Kerr(xi=0.4).on_modes(1)]]
+            for vbody in variants:
                 for fault in (False, True):
-                    ins = [copy.copy(x) for x in body[:upto]]
+                    ins = [copy.copy(x) for x in vbody]
                     snap = _state_snapshot(st)
                     cfgsnap = _config_snapshot(sim.config)
                     undo = None
@@ -151,7 +156,7 @@ def initial_state_frame(ctx, pq):
                     finally:
                         if undo:
                             undo[0]._get_simulation_step = undo[1]
-                    ctx.case(("init", name, upto, fault))
+                    ctx.case(("init", name, tuple(type(x).__name__ for x in vbody), fault))
                     if _state_snapshot(st) != snap:
                         changed = [k for k in snap if _state_snapshot(st).get(k) != snap[k]]
                         ctx.report(f"C12:initial_state:{name}:{type(ins[-1]).__name__}",
